@@ -19,6 +19,7 @@ package main
 import (
 	"bytes"
 	"fmt"
+	"go/constant"
 	"go/token"
 	"go/types"
 	"os"
@@ -700,6 +701,321 @@ func (vb *viewBuilder) promoteSpills() {
 	}
 }
 
+// lowerBound: a constant c such that v >= c always holds, for constants and for induction
+// variables (a phi whose entry edges are constants and whose other edges add a positive constant
+// to the phi itself).
+func lowerBound(v ssa.Value) (int64, bool) {
+	if c, ok := constInt(v); ok {
+		return c, true
+	}
+	ph, ok := v.(*ssa.Phi)
+	if !ok {
+		return 0, false
+	}
+	lb, have := int64(0), false
+	for _, e := range ph.Edges {
+		if c, ok := constInt(e); ok {
+			if !have || c < lb {
+				lb, have = c, true
+			}
+			continue
+		}
+		bo, ok := e.(*ssa.BinOp)
+		if !ok || bo.Op != token.ADD || bo.X != ssa.Value(ph) {
+			return 0, false
+		}
+		if k, ok := constInt(bo.Y); !ok || k <= 0 {
+			return 0, false
+		}
+	}
+	return lb, have
+}
+
+// decideCmp evaluates `v op c` when v is a constant or has a known lower bound that decides it.
+func decideCmp(op token.Token, v ssa.Value, c int64) (val, known bool) {
+	if n, ok := constInt(v); ok {
+		switch op {
+		case token.EQL:
+			return n == c, true
+		case token.NEQ:
+			return n != c, true
+		case token.LSS:
+			return n < c, true
+		case token.LEQ:
+			return n <= c, true
+		case token.GTR:
+			return n > c, true
+		case token.GEQ:
+			return n >= c, true
+		}
+		return false, false
+	}
+	if lb, ok := lowerBound(v); ok {
+		switch op {
+		case token.GEQ:
+			if lb >= c {
+				return true, true
+			}
+		case token.GTR:
+			if lb > c {
+				return true, true
+			}
+		case token.LSS:
+			if lb >= c {
+				return false, true
+			}
+		case token.LEQ:
+			if lb > c {
+				return false, true
+			}
+		case token.EQL:
+			if lb > c {
+				return false, true
+			}
+		case token.NEQ:
+			if lb > c {
+				return true, true
+			}
+		}
+	}
+	return false, false
+}
+
+// threadIntPhis does for `r := find(…); if r >= 0` what threadBoolPhis does for booleans: a block
+// that holds only an integer phi, its comparison with a constant and the If on it is bypassed —
+// predecessors whose value decides the comparison (a constant such as -1, or a loop index known
+// to be >= 0) jump straight to the decided successor, the others branch on their own comparison.
+func (vb *viewBuilder) threadIntPhis() {
+	f := vb.nf
+	for changed := true; changed; {
+		changed = false
+		for _, x := range f.Blocks {
+			if len(x.Instrs) != 3 || x == f.Blocks[0] || x == f.Recover || x.Succs == nil || len(x.Succs) != 2 || x.Succs[0] == x.Succs[1] {
+				continue
+			}
+			phi, ok := x.Instrs[0].(*ssa.Phi)
+			if !ok {
+				continue
+			}
+			cmp, ok := x.Instrs[1].(*ssa.BinOp)
+			if !ok {
+				continue
+			}
+			iff, ok := x.Instrs[2].(*ssa.If)
+			if !ok || iff.Cond != ssa.Value(cmp) {
+				continue
+			}
+			op := cmp.Op
+			var c int64
+			if cmp.X == ssa.Value(phi) {
+				n, ok := constInt(cmp.Y)
+				if !ok {
+					continue
+				}
+				c = n
+			} else if cmp.Y == ssa.Value(phi) {
+				n, ok := constInt(cmp.X)
+				if !ok {
+					continue
+				}
+				c, op = n, swapOp(op)
+			} else {
+				continue
+			}
+			switch op {
+			case token.EQL, token.NEQ, token.LSS, token.LEQ, token.GTR, token.GEQ:
+			default:
+				continue
+			}
+			// other uses of the phi are fine (the index is used afterwards), but they must be
+			// dominated… keep it simple: the phi may be used elsewhere only if every predecessor
+			// edge is decided (then the users sit behind one decided successor); the comparison
+			// must feed only the If
+			cmpUses, phiUses := 0, 0
+			var rands []*ssa.Value
+			for _, b := range f.Blocks {
+				for _, in := range b.Instrs {
+					rands = in.Operands(rands[:0])
+					for _, r := range rands {
+						if *r == ssa.Value(cmp) {
+							cmpUses++
+						}
+						if *r == ssa.Value(phi) {
+							phiUses++
+						}
+					}
+				}
+			}
+			if cmpUses != 1 || len(x.Preds) != len(phi.Edges) {
+				continue
+			}
+			// other uses of the phi (the index is used in the taken arm) are re-fed through a phi
+			// placed in the successor that dominates them; that successor must be entered only from x
+			useSucc := map[*ssa.BasicBlock][]*ssa.Value{}
+			okUses := true
+			if phiUses > 1 {
+				domBy := func(t, b *ssa.BasicBlock) bool {
+					// every path from the entry to b passes t  <=>  b unreachable once t is removed
+					if b == t {
+						return true
+					}
+					seen := map[*ssa.BasicBlock]bool{t: true}
+					st := []*ssa.BasicBlock{f.Blocks[0]}
+					for len(st) > 0 {
+						y := st[len(st)-1]
+						st = st[:len(st)-1]
+						if seen[y] {
+							continue
+						}
+						seen[y] = true
+						if y == b {
+							return false
+						}
+						st = append(st, y.Succs...)
+					}
+					return true
+				}
+				for _, b := range f.Blocks {
+					for _, in := range b.Instrs {
+						if in == ssa.Instruction(cmp) {
+							continue
+						}
+						rs := in.Operands(nil)
+						for _, r := range rs {
+							if *r != ssa.Value(phi) {
+								continue
+							}
+							if _, isPhi := in.(*ssa.Phi); isPhi {
+								okUses = false
+								continue
+							}
+							placed := false
+							for _, t := range x.Succs {
+								if len(t.Preds) == 1 && domBy(t, b) {
+									useSucc[t] = append(useSucc[t], r)
+									placed = true
+									break
+								}
+							}
+							if !placed {
+								okUses = false
+							}
+						}
+					}
+				}
+			}
+			if !okUses {
+				continue
+			}
+			self := false
+			for _, q := range x.Preds {
+				if q == x {
+					self = true
+				}
+			}
+			if self || x.Succs[0] == x || x.Succs[1] == x {
+				continue
+			}
+			// at least one edge must be decided, otherwise nothing is gained
+			decided := 0
+			for _, e := range phi.Edges {
+				if _, known := decideCmp(op, e, c); known {
+					decided++
+				}
+			}
+			if decided == 0 {
+				continue
+			}
+			addPred := func(t, np *ssa.BasicBlock) {
+				xi := -1
+				for k, q := range t.Preds {
+					if q == x {
+						xi = k
+					}
+				}
+				t.Preds = append(t.Preds, np)
+				for _, in := range t.Instrs {
+					ph, ok := in.(*ssa.Phi)
+					if !ok {
+						break
+					}
+					ph.Edges = append(ph.Edges, ph.Edges[xi])
+				}
+			}
+			edgeVal := map[*ssa.BasicBlock]ssa.Value{}
+			for k, q := range x.Preds {
+				e := phi.Edges[k]
+				if val, known := decideCmp(op, e, c); known {
+					t := x.Succs[1]
+					if val {
+						t = x.Succs[0]
+					}
+					for si, s := range q.Succs {
+						if s == x {
+							q.Succs[si] = t
+						}
+					}
+					addPred(t, q)
+					edgeVal[q] = e
+					continue
+				}
+				nb := &ssa.BasicBlock{Comment: "thread." + x.Comment}
+				setBlockParent(nb, f)
+				nc := &ssa.BinOp{Op: op, X: e, Y: ssa.NewConst(constant.MakeInt64(c), e.Type())}
+				setRegType(nc, cmp.Type())
+				setInstrBlock(nc, nb)
+				ni := &ssa.If{Cond: nc}
+				setInstrBlock(ni, nb)
+				vb.origin[nc] = vb.origin[cmp]
+				vb.origin[ni] = vb.origin[iff]
+				nb.Instrs = []ssa.Instruction{nc, ni}
+				nb.Preds = []*ssa.BasicBlock{q}
+				nb.Succs = []*ssa.BasicBlock{x.Succs[0], x.Succs[1]}
+				for si, s := range q.Succs {
+					if s == x {
+						q.Succs[si] = nb
+					}
+				}
+				addPred(x.Succs[0], nb)
+				addPred(x.Succs[1], nb)
+				edgeVal[nb] = e
+				var nbs []*ssa.BasicBlock
+				for _, y := range f.Blocks {
+					nbs = append(nbs, y)
+					if y == x {
+						nbs = append(nbs, nb)
+					}
+				}
+				f.Blocks = nbs
+			}
+			// re-feed the value to its remaining users
+			for t, uses := range useSucc {
+				np := &ssa.Phi{Comment: phi.Comment}
+				setRegType(np, phi.Type())
+				setInstrBlock(np, t)
+				vb.origin[np] = vb.origin[phi]
+				for _, q := range t.Preds {
+					switch {
+					case q == x:
+						np.Edges = append(np.Edges, phi)
+					default:
+						np.Edges = append(np.Edges, edgeVal[q])
+					}
+				}
+				t.Instrs = append([]ssa.Instruction{np}, t.Instrs...)
+				for _, r := range uses {
+					*r = np
+				}
+			}
+			x.Preds = nil
+			vb.removeUnreachable()
+			changed = true
+			break
+		}
+	}
+	vb.dedupIfTargets()
+}
+
 // threadBoolPhis turns `x := a && b; if x` (go/ssa keeps the short-circuit as a value when the
 // condition is a switch case or an assigned expression) into plain control flow: a block that
 // holds only a boolean phi and the If on it is bypassed — predecessors that supply a constant jump
@@ -849,7 +1165,12 @@ func (vb *viewBuilder) threadBoolPhis() {
 			break
 		}
 	}
-	// an If whose two targets became identical is a Jump
+	vb.dedupIfTargets()
+}
+
+// dedupIfTargets: an If whose two targets became identical is a Jump.
+func (vb *viewBuilder) dedupIfTargets() {
+	f := vb.nf
 	for _, b := range f.Blocks {
 		if iff, ok := b.Instrs[len(b.Instrs)-1].(*ssa.If); ok && b.Succs[0] == b.Succs[1] {
 			_ = iff
@@ -898,6 +1219,8 @@ func (vb *viewBuilder) finish() error {
 		before := len(f.Blocks)
 		vb.simplifyPhis()
 		vb.threadBoolPhis()
+		vb.simplifyPhis()
+		vb.threadIntPhis()
 		vb.simplifyPhis()
 		vb.fuseJumps()
 		if len(f.Blocks) == before {
